@@ -163,18 +163,35 @@ def _raw3_pack_rule(ctx, blp):
         ctx.bad(R, "image_to_raw3|shape", f.where, "no push of the packed word found", "shape changed")
         return
     lets = {l["pat"]["name"]: l["init"] for l in hirq.find(lp["body"], "let") if l["pat"].get("k") == "bind" and l.get("init") is not None}
+    packed = push["args"][0]
+    # the packing may live in a helper that is handed the pixel: evaluate the helper's body (and hold it to the same no-control-flow rule)
+    byp = {x.path: x for x in blp.fn_list if x.hir and x.kind != "Closure"}
+    for _ in range(3):
+        pe = hirq.strip(packed)
+        g = byp.get(pe.get("fn")) if pe.get("k") == "call" else None
+        if g is None or not all(hirq.strip(a_).get("k") in ("path", "ref") for a_ in pe.get("args") or []):
+            break
+        ctx.saw_fn(g)
+        ctl = [x for x in hirq.walk(g.hir["body"]) if x.get("k") in ("if", "match", "continue", "break", "ret") and not x.get("x")]
+        if ctl:
+            ctx.bad(R, "image_to_raw3|value-dependent", "%s:%d" % (g.file, ctl[0].get("ln") or 0), "the per-pixel packer `%s` contains `%s`" % (g.path.split("::")[-1], hirq.render(ctl[0])[:50]),
+                    "pixels the condition selects are not stored as they are: the decoded image differs from the source in those pixels (e.g. fully transparent pixels lose their colour)")
+            return
+        gb = hirq.strip(g.hir["body"])
+        lets = {l["pat"]["name"]: l["init"] for l in hirq.find(gb, "let") if l["pat"].get("k") == "bind" and l.get("init") is not None}
+        packed = gb.get("e") if gb.get("k") == "block" and gb.get("e") is not None else gb
     try:
         bad = None
         for (r, g, b, a) in ((0, 0, 0, 0), (255, 1, 2, 0), (1, 2, 3, 4), (255, 255, 255, 255), (16, 32, 64, 128), (0, 0, 0, 255), (200, 0, 0, 0), (7, 77, 177, 1)):
             leaf = lambda r_, ch=(r, g, b, a): ch[int(r_[-2])] if re.search(r"\[\d\]$", r_) else None
-            got = _ival(push["args"][0], {"__leaf__": leaf, "__ty__": (lambda t_: blp.ty(t_))}, lets) & 0xFFFFFFFF
+            got = _ival(packed, {"__leaf__": leaf, "__ty__": (lambda t_: blp.ty(t_))}, lets) & 0xFFFFFFFF
             want = (a << 24) | (r << 16) | (g << 8) | b
             if got != want and bad is None:
                 bad = ((r, g, b, a), got, want)
         if bad:
             ctx.bad(R, "image_to_raw3|packing", "%s:%d" % (f.file, push.get("ln") or 0), "pixel %s is packed as 0x%08X, BGRA order gives 0x%08X" % bad, "the decoded pixel differs from the source pixel")
         else:
-            ctx.ok(R, {"packed": hirq.render(push["args"][0])[:60], "samples": 8})
+            ctx.ok(R, {"packed": hirq.render(packed)[:60], "samples": 8})
     except _NoEval as e:
         ctx.bad(R, "image_to_raw3|not-evaluable", f.where, "packed word not evaluable: %s" % e, "shape changed")
 
